@@ -97,8 +97,9 @@ def check_geometry(R, backend, data, opts, scale, today=None):
             return "C07:domain", "explicit domain %r but the scale reports %r" % (opts["domain"], dom)
     if d0 == d1:
         return "C07:domain", "degenerate axis domain %r" % (dom,)
-    if min(nums) < min(d0, d1) - 1 or max(nums) > max(d0, d1) + 1:
-        return "C07:domain", "axis domain %r does not cover the data" % (dom,)
+    slack = 1 if isinstance(inst[0], _dt.datetime) else 4e-16 * max(abs(float(d0)), abs(float(d1)))  # 1 ms / float rounding
+    if min(nums) < min(d0, d1) - slack or max(nums) > max(d0, d1) + slack:
+        return "C07:domain", "axis domain %r does not cover the data (%r .. %r)" % (dom, float(min(nums)), float(max(nums)))
     if not d1 > d0:
         return "C07:domain", "axis domain %r is not increasing" % (dom,)
 
@@ -139,8 +140,8 @@ def check_geometry(R, backend, data, opts, scale, today=None):
     drawn = []
     for j in range(n):
         dot, link, box = R["dots"][j], R["links"][j], R["boxes"][j]
-        if draw.across(direction, dot["pos"]) != 0:
-            return "C07:dot-off-axis", "dot %d at %r is not on the axis line" % (j, dot["pos"])
+        if draw.across(direction, dot["pos"]) != 0 or not (-1e-6 * max(1, L) <= draw.along(direction, dot["pos"]) <= L * (1 + 1e-6)):
+            return "C07:dot-off-axis", "dot %d at %r is not on the axis line (length %r)" % (j, dot["pos"], L)
         segs = link["segs"]
         start = segs[0][1]
         if not (close(start[0], dot["pos"][0], ptol) and close(start[1], dot["pos"][1], ptol)):
